@@ -235,6 +235,69 @@ Section Munch.
     - intros [= <- <-]. right. reflexivity.
   Qed.
 
+  (* what a raw token is, without reference to the code: when no prefix is accepted, the raw
+     token is the longest live prefix of the remaining stream (the byte after it kills every
+     recognised sequence), or the first byte alone when not even that byte starts a sequence *)
+  Lemma munch1_raw_span s t k :
+    munch1 s = Some (t, k) -> acc_at s k = false ->
+    t = TRaw (firstn k s) /\
+    ((dead_at s k = false /\ dead_at s (S k) = true) \/ (k = 1%nat /\ dead_at s 1 = true)).
+  Proof.
+    unfold Tokenizer.munch1. destruct (first_stop s) as [n|] eqn:Hn; [|discriminate].
+    apply first_stop_some in Hn. destruct Hn as (Hr & Hs & Hl).
+    destruct (longest_acc s (if dead_at s n then n - 1 else n)) as [k'|] eqn:Hk.
+    - intros H; inversion H; subst. apply longest_acc_some in Hk. destruct Hk as (_ & Ha & _).
+      intros E. rewrite E in Ha. discriminate.
+    - destruct (dead_at s n) eqn:Hd.
+      + intros H _.
+        assert (k = Nat.max 1 (n - 1) /\ t = TRaw (firstn (Nat.max 1 (n - 1)) s)) as [-> ->] by (split; congruence).
+        split; [reflexivity|].
+        destruct (Nat.eq_dec n 1) as [->|Hne].
+        * right. split; [reflexivity|exact Hd].
+        * left. replace (Nat.max 1 (n - 1)) with (n - 1)%nat by lia.
+          replace (S (n - 1)) with n by lia. split; [|exact Hd].
+          specialize (Hl (n - 1)%nat ltac:(lia)). unfold Tokenizer.stop_at in Hl.
+          apply orb_false_elim in Hl. apply Hl.
+      + unfold Tokenizer.stop_at in Hs. rewrite Hd in Hs. cbn [orb] in Hs.
+        rewrite longest_acc_none in Hk. specialize (Hk n ltac:(lia)).
+        unfold Tokenizer.term_at in Hs. unfold Tokenizer.acc_at in Hk.
+        destruct (run (firstn n s)); [|discriminate]. apply andb_prop in Hs. destruct Hs as [Hs _].
+        rewrite Hs in Hk. discriminate.
+  Qed.
+
+  (* "recognised" = accepted by the automaton: an accepted longest prefix is emitted as the item its
+     payload decoder makes of it, or — when the decoder rejects the bytes — as a raw token of the
+     SAME span; a shorter complete sequence is not reconsidered *)
+  Lemma munch1_accepted s t k :
+    munch1 s = Some (t, k) -> acc_at s k = true ->
+    exists q, run (firstn k s) = Some q /\ accepting q = true /\
+      match decode_item q (firstn k s) with
+      | Some i => t = TItem i (firstn k s)
+      | None => t = TRaw (firstn k s)
+      end.
+  Proof.
+    intros H Ha.
+    destruct (Bool.bool_dec (acc_at s k) false) as [E|_]; [rewrite E in Ha; discriminate|].
+    revert H. unfold Tokenizer.munch1. destruct (first_stop s) as [n|] eqn:Hn; [|discriminate].
+    apply first_stop_some in Hn. destruct Hn as (Hr & Hs & Hl).
+    destruct (longest_acc s (if dead_at s n then n - 1 else n)) as [k'|] eqn:Hk.
+    - intros H; inversion H; subst. unfold Tokenizer.acc_at in Ha. unfold Tokenizer.tok_at.
+      destruct (run (firstn k s)) as [q|]; [|discriminate]. exists q. split; [reflexivity|]. split; [exact Ha|].
+      unfold Tokenizer.mk_tok. destruct (decode_item q (firstn k s)); reflexivity.
+    - intros H. assert (k = Nat.max 1 (n - 1)) as -> by congruence. clear H.
+      exfalso. rewrite longest_acc_none in Hk.
+      destruct (dead_at s n) eqn:Hd.
+      + destruct (Nat.eq_dec n 1) as [->|Hne].
+        * cbn [Nat.max Nat.sub] in Ha. unfold Tokenizer.dead_at in Hd. unfold Tokenizer.acc_at in Ha.
+          destruct (run (firstn 1 s)); discriminate.
+        * replace (Nat.max 1 (n - 1)) with (n - 1)%nat in Ha by lia.
+          rewrite (Hk (n - 1)%nat ltac:(lia)) in Ha. discriminate.
+      + unfold Tokenizer.stop_at in Hs. rewrite Hd in Hs. cbn [orb] in Hs.
+        specialize (Hk n ltac:(lia)). unfold Tokenizer.term_at in Hs. unfold Tokenizer.acc_at in Hk.
+        destruct (run (firstn n s)); [|discriminate]. apply andb_prop in Hs. destruct Hs as [Hs _].
+        rewrite Hs in Hk. discriminate.
+  Qed.
+
   (* the first token only depends on the stream up to the first stop *)
   Lemma munch1_prefix y w r : munch1 y = Some r -> munch1 (y ++ w) = Some r.
   Proof.
@@ -384,6 +447,49 @@ Section Munch.
           split; [reflexivity|]. rewrite skipn_app_le, skipn_all by lia. reflexivity.
         * apply Nat.ltb_ge in E. exists 1%nat. rewrite Hm1.
           destruct x as [|? ?]; [|cbn [length] in E; lia]. subst y. cbn. split; reflexivity.
+  Qed.
+
+  (* the invariant along the loops of the code *)
+  Lemma decode_byte_Inv (s s' : st) b o :
+    Tokenizer.decode_byte Q Item q0 delta accepting terminal decode_item s b = (s', o) -> Inv s -> Inv s'.
+  Proof.
+    intros H HI. rewrite <- (set_res_eta Q Item s) in H.
+    rewrite (decode_byte_param Q Item q0 delta accepting terminal decode_item) in H.
+    destruct (cstep s b) as [[c o1] p] eqn:Hc. inversion H; subst.
+    apply Inv_set_res. apply (cstep_inv _ _ _ _ _ Hc HI).
+  Qed.
+
+  Lemma drain_Inv fuel : forall (s s' : st) o,
+    Tokenizer.drain Q Item q0 delta accepting terminal decode_item fuel s = Ok (s', o) -> Inv s -> Inv s'.
+  Proof.
+    induction fuel as [|f IH]; intros s s' o H HI; [discriminate|].
+    cbn [Tokenizer.drain] in H. destruct (sres s) as [|b r].
+    - inversion H; subst. exact HI.
+    - destruct (Tokenizer.decode_byte Q Item q0 delta accepting terminal decode_item (set_res s r) b) as [s1 o1] eqn:Hb.
+      pose proof (decode_byte_Inv _ _ _ _ Hb (proj2 (Inv_set_res s r) HI)) as H1.
+      destruct o1; [inversion H; subst; exact H1|apply (IH _ _ _ H H1)].
+  Qed.
+
+  Lemma scan_Inv input : forall (s s' : st) o rest,
+    Tokenizer.scan_input Q Item q0 delta accepting terminal decode_item s input = (s', o, rest) -> Inv s -> Inv s'.
+  Proof.
+    induction input as [|b r IH]; intros s s' o rest H HI.
+    - cbn in H. inversion H; subst. exact HI.
+    - cbn [Tokenizer.scan_input] in H.
+      destruct (Tokenizer.decode_byte Q Item q0 delta accepting terminal decode_item s b) as [s1 o1] eqn:Hb.
+      pose proof (decode_byte_Inv _ _ _ _ Hb HI) as H1.
+      destruct o1; [inversion H; subst; exact H1|apply (IH _ _ _ _ H H1)].
+  Qed.
+
+  Lemma decode_Inv (s s' : st) input o rest :
+    Tokenizer.decode Q Item q0 delta accepting terminal decode_item s input = Ok (s', o, rest) -> Inv s -> Inv s'.
+  Proof.
+    unfold Tokenizer.decode.
+    destruct (Tokenizer.drain Q Item q0 delta accepting terminal decode_item (S (length (sres s))) s)
+      as [[s1 o1]| | |] eqn:Hd; cbn [bind]; try discriminate.
+    intros H HI. pose proof (drain_Inv _ _ _ _ Hd HI) as H1.
+    destruct o1; [inversion H; subst; exact H1|].
+    inversion H as [Hs]. apply (scan_Inv _ _ _ _ _ Hs H1).
   Qed.
 
   (* ---------------------------------------------------------------- *)
